@@ -62,6 +62,19 @@ def handle (op : String) (inp go : Sexp) : Option Reply :=
           pure ⟨(Sexp.ofBool mres).toStr,
             verdictOf (go.toStr == toString want) "IsOnLine differs from 'the point lies on one of the segments' in exact arithmetic"⟩
       | _, _ => pure ⟨"-", "na"⟩
+  | "C11.ptline", .list [p, a, b] => do
+      -- lineintersector.PointIntersectsLine with the robust and with the non-robust strategy, on small
+      -- integer coordinates (where the non-robust arithmetic is exact) and a segment of non-zero length
+      let pb ← listOf bits p
+      let ab ← listOf bits a
+      let bb ← listOf bits b
+      match rpt (pb.getD 0 0, pb.getD 1 0), rpt (ab.getD 0 0, ab.getD 1 0), rpt (bb.getD 0 0, bb.getD 1 0) with
+      | some pe, some ae, some be =>
+          let want := C11.onLine pe [ae, be]
+          let m := s!"({want} {want})"
+          pure ⟨m, verdictOf (go.toStr == m)
+            "PointIntersectsLine (robust, non-robust) differs from 'the point lies on the segment' in exact arithmetic"⟩
+      | _, _, _ => pure ⟨"-", "na"⟩
   | _, _ => none
 
 end GeomVerif.Driver.C11
